@@ -28,12 +28,17 @@ Definition acc_prefix (c : list mwb) (i : nat) : Prop := Forall (fun b => accept
 Definition rejected_at (c : list mwb) (j : nat) (r : rej) : Prop :=
   exists b, nth_error c j = Some b /\ mb_verdict b = Reject r /\ acc_prefix c j.
 
-Definition pc_ok (c : list mwb) (p : pc) (calls : list nat) : Prop :=
+Definition pc_ok (sk : bool) (c : list mwb) (p : pc) (calls : list nat) : Prop :=
   match p with
+  | PNew => calls = []
   | PMw i => (i <= length c)%nat /\ acc_prefix c i /\ calls = seq 0 i
   | PDisable r | PLeave r | PSendError r | PRejected r => exists j, rejected_at c j r /\ calls = seq 0 (S j)
-  | _ => acc_prefix c (length c) /\ calls = seq 0 (length c)
+  | _ => (sk = true /\ calls = []) \/ (acc_prefix c (length c) /\ calls = seq 0 (length c))
   end.
+
+(** the socket is in its own room: joined by onConnect, or - a restored session - at creation *)
+Definition own_in (t : adm) : bool :=
+  own_joined_pc (t_pc t) || (restored t && match t_pc t with PNew => false | _ => true end).
 
 Definition expected_packets (x : sid) (p : pc) : list pkt :=
   match p with
@@ -46,10 +51,10 @@ Record tinv (s : server) (t : adm) : Prop := mkTinv {
   i_flag : In (t_sid t) (conn_flag s) <-> connected_pc (t_pc t) = true;
   i_tables : (exists c, In (c, t_sid t) (c_socks s)) <-> tables_pc (t_pc t) = true;
   i_rooms : forall r, In r (rooms_of (adp s) (t_sid t)) ->
-              (r = ROwn (t_sid t) /\ own_joined_pc (t_pc t) = true) \/ exists n, r = RNamed n;
+              (r = ROwn (t_sid t) /\ own_in t = true) \/ exists n, r = RNamed n;
   i_own : own_joined_pc (t_pc t) = true -> In (ROwn (t_sid t)) (rooms_of (adp s) (t_sid t));
   i_clean : cleaned_pc (t_pc t) = true -> mget N.eqb (t_sid t) (a_sids (adp s)) = None;
-  i_chain : pc_ok (t_chain t) (t_pc t) (mw_calls (t_sid t) (trace s));
+  i_chain : pc_ok (skipped t) (t_chain t) (t_pc t) (mw_calls (t_sid t) (trace s));
   i_pkts : packets (t_sid t) (trace s) = expected_packets (t_sid t) (t_pc t);
   i_h : handler_runs (t_sid t) (trace s) = match t_h t with HRan => 1%nat | _ => 0%nat end;
   i_hpc : t_h t <> HNone <-> spawned_pc (t_pc t) = true;
@@ -143,8 +148,8 @@ Ltac frame_tac :=
 
 Lemma step_main_frame : forall t s x, x <> t_sid t -> same_for x s (snd (step_main t s)).
 Proof.
-  intros [sd cn ch p h je js] s x NE. simpl in NE. unfold step_main, held; simpl.
-  destruct p; simpl; brk; destruct je; simpl; frame_tac.
+  intros [sd cn ch p h je js rc um] s x NE. simpl in NE. unfold step_main, held; simpl.
+  destruct rc as [rooms|]; destruct um; destruct p; simpl; brk; destruct je; simpl; frame_tac.
   all: repeat split; auto; try tauto.
   all: try (intros (c & H); apply in_app_or in H as [H|[H|[]]]; eauto; inversion H; subst; contradiction).
   all: try (intros (c & H); exists c; apply in_or_app; auto).
@@ -152,13 +157,13 @@ Qed.
 
 Lemma step_h_frame : forall t s x, x <> t_sid t -> same_for x s (snd (step_h t s)).
 Proof.
-  intros [sd cn ch p h je js] s x NE. simpl in NE. unfold step_h; simpl.
+  intros [sd cn ch p h je js rc um] s x NE. simpl in NE. unfold step_h; simpl.
   destruct h; simpl; frame_tac.
 Qed.
 
 Lemma step_join_frame : forall j t s x, x <> t_sid t -> same_for x s (snd (step_join j t s)).
 Proof.
-  intros j [sd cn ch p h je js] s x NE. simpl in NE. unfold step_join, held; simpl.
+  intros j [sd cn ch p h je js rc um] s x NE. simpl in NE. unfold step_join, held; simpl.
   destruct (nth_error js j) as [[rs [| |]]|]; simpl; brk; try destruct je; simpl; frame_tac.
 Qed.
 
@@ -166,35 +171,36 @@ Lemma step_main_static : forall t s,
   t_sid (fst (step_main t s)) = t_sid t /\ t_conn (fst (step_main t s)) = t_conn t /\
   t_chain (fst (step_main t s)) = t_chain t.
 Proof.
-  intros [sd cn ch p h je js] s. unfold step_main, held; simpl. destruct p; simpl; brk; auto.
+  intros [sd cn ch p h je js rc um] s. unfold step_main, held; simpl.
+  destruct rc as [rooms|]; destruct um; destruct p; simpl; brk; auto.
 Qed.
 
 Lemma step_h_static : forall t s,
   t_sid (fst (step_h t s)) = t_sid t /\ t_conn (fst (step_h t s)) = t_conn t /\
   t_chain (fst (step_h t s)) = t_chain t.
-Proof. intros [sd cn ch p h je js] s. unfold step_h; simpl. destruct h; simpl; auto. Qed.
+Proof. intros [sd cn ch p h je js rc um] s. unfold step_h; simpl. destruct h; simpl; auto. Qed.
 
 Lemma step_join_static : forall j t s,
   t_sid (fst (step_join j t s)) = t_sid t /\ t_conn (fst (step_join j t s)) = t_conn t /\
   t_chain (fst (step_join j t s)) = t_chain t.
 Proof.
-  intros j [sd cn ch p h je js] s. unfold step_join, held; simpl.
+  intros j [sd cn ch p h je js rc um] s. unfold step_join, held; simpl.
   destruct (nth_error js j) as [[rs [| |]]|]; simpl; brk; try destruct je; simpl; auto.
 Qed.
 
 Lemma step_main_consistent : forall t s, consistent (adp s) -> consistent (adp (snd (step_main t s))).
 Proof.
-  intros [sd cn ch p h je js] s C. unfold step_main, held; simpl.
-  destruct p; simpl; brk; destruct je; simpl; auto;
+  intros [sd cn ch p h je js rc um] s C. unfold step_main, held; simpl.
+  destruct rc as [rooms|]; destruct um; destruct p; simpl; brk; destruct je; simpl; auto;
     try apply join_calls_consistent; try apply delete_all_consistent; try apply add_all_consistent; auto.
 Qed.
 
 Lemma step_h_consistent : forall t s, consistent (adp s) -> consistent (adp (snd (step_h t s))).
-Proof. intros [sd cn ch p h je js] s C. unfold step_h; simpl. destruct h; simpl; auto. Qed.
+Proof. intros [sd cn ch p h je js rc um] s C. unfold step_h; simpl. destruct h; simpl; auto. Qed.
 
 Lemma step_join_consistent : forall j t s, consistent (adp s) -> consistent (adp (snd (step_join j t s))).
 Proof.
-  intros j [sd cn ch p h je js] s C. unfold step_join, held; simpl.
+  intros j [sd cn ch p h je js rc um] s C. unfold step_join, held; simpl.
   destruct (nth_error js j) as [[rs [| |]]|]; simpl; brk; try destruct je; simpl; auto.
   all: try (apply add_all_consistent, C).
 Qed.
@@ -221,10 +227,18 @@ Ltac fin :=
 
 Lemma step_main_own : forall t s, tinv s t -> tinv (snd (step_main t s)) (fst (step_main t s)).
 Proof.
-  intros [sd cn ch p h je js] s [I1 I2 I3 I4 I5 I6 I7 I8 I9 I10 I11 I12]. simpl in *.
-  unfold step_main, held in *; simpl in *. destruct p; simpl in *; subst je; simpl; brk;
+  intros [sd cn ch p h je js rc um] s [I1 I2 I3 I4 I5 I6 I7 I8 I9 I10 I11 I12]. simpl in *.
+  unfold step_main, held, own_in, skipped, restored in *; simpl in *.
+  destruct rc as [rooms|]; destruct um; destruct p; simpl in *; subst je; simpl; brk;
     try (constructor; fin; fail).
   all: constructor; fin.
+  (* a restored session joins its rooms (own room included) when the socket is created *)
+  all: try solve [intros r0 H0; unfold own_in, restored; simpl;
+                  apply add_all_rooms_of in H0 as [H0|[_ [H0|H0]]];
+                  [destruct (I4 r0 H0) as [[E F]|N]; [try discriminate; left; split; auto | auto]
+                  | left; split; auto
+                  | right; apply in_map_iff in H0 as (n & <- & _); eauto]].
+  all: try solve [repeat split; [lia | constructor | rewrite I7; reflexivity]].
   (* rooms after the middleware's own Join calls: still named rooms only *)
   all: try solve [intros r0 H0; apply join_calls_rooms_of in H0 as [H0|H0]; auto].
   (* chain bookkeeping *)
@@ -248,8 +262,10 @@ Proof.
   (* connection tables *)
   all: try solve [split; auto; intros _; eexists; apply in_or_app; right; left; reflexivity].
   (* own room *)
-  all: try solve [intros r0 H0; apply add_all_rooms_of in H0 as [H0|[_ [H0|[]]]]; auto;
-                  destruct (I4 r0 H0) as [[_ F]|N]; [discriminate|auto]].
+  all: try solve [intros r0 H0; unfold own_in, restored; simpl;
+                  apply add_all_rooms_of in H0 as [H0|[_ [H0|[]]]];
+                  [destruct (I4 r0 H0) as [[E F]|N]; [left; split; auto|auto]
+                  | subst r0; left; split; auto]].
   all: try solve [intros _; apply add_all_rooms_of; right; split; auto; left; auto].
   (* handler goroutine not started yet *)
   all: try solve [rewrite I9; destruct h; auto; exfalso; assert (HRan <> HNone) as X by discriminate;
@@ -258,7 +274,7 @@ Qed.
 
 Lemma step_h_own : forall t s, tinv s t -> tinv (snd (step_h t s)) (fst (step_h t s)).
 Proof.
-  intros [sd cn ch p h je js] s [I1 I2 I3 I4 I5 I6 I7 I8 I9 I10 I11 I12]. simpl in *.
+  intros [sd cn ch p h je js rc um] s [I1 I2 I3 I4 I5 I6 I7 I8 I9 I10 I11 I12]. simpl in *.
   unfold step_h; simpl. destruct h; simpl; try (constructor; fin).
   rewrite I9. reflexivity.
 Qed.
@@ -280,7 +296,7 @@ Qed.
 
 Lemma step_join_own : forall j t s, tinv s t -> tinv (snd (step_join j t s)) (fst (step_join j t s)).
 Proof.
-  intros j [sd cn ch p h je js] s [I1 I2 I3 I4 I5 I6 I7 I8 I9 I10 I11 I12]. simpl in *.
+  intros j [sd cn ch p h je js rc um] s [I1 I2 I3 I4 I5 I6 I7 I8 I9 I10 I11 I12]. simpl in *.
   unfold step_join, held in *; simpl in *.
   destruct (nth_error js j) as [[rs [| |]]|] eqn:NJ; simpl; try (constructor; fin; fail).
   - (* entering Join *)
@@ -305,14 +321,13 @@ Definition ginv (st : sys) : Prop :=
 
 Definition fresh (ts : list adm) : Prop :=
   NoDup (map t_sid ts) /\
-  Forall (fun t => t_pc t = PMw 0 /\ t_h t = HNone /\ t_jen t = true /\ t_js t = []) ts.
+  Forall (fun t => t_pc t = PNew /\ t_h t = HNone /\ t_jen t = true /\ t_js t = []) ts.
 
-Lemma tinv_fresh : forall t, t_pc t = PMw 0 -> t_h t = HNone -> t_jen t = true -> t_js t = [] -> tinv server0 t.
+Lemma tinv_fresh : forall t, t_pc t = PNew -> t_h t = HNone -> t_jen t = true -> t_js t = [] -> tinv server0 t.
 Proof.
-  intros [sd cn ch p h je js] P H J JS. simpl in *. subst.
+  intros [sd cn ch p h je js rc um] P H J JS. simpl in *. subst.
   constructor; simpl; try tauto; try (intuition discriminate); auto.
-  - split; [intros (c & [])|discriminate].
-  - repeat split; try lia. constructor.
+  split; [intros (c & [])|discriminate].
 Qed.
 
 Lemma ginv_init : forall ts, fresh ts -> ginv (init ts).
@@ -406,27 +421,29 @@ Qed.
 
 (** * The property *)
 
-(** Anything by which a socket counts as connected: listed in the namespace, member of its own
-    room, flagged connected, reached by some broadcast, its connection handlers ran, the client was
-    sent CONNECT, entered in its connection's tables. *)
-Definition visible (s : server) (x : sid) : Prop :=
-  In x (store s) \/ In x (members (adp s) (ROwn x)) \/ In x (conn_flag s)
+(** Anything by which a socket counts as connected: listed in the namespace, flagged connected,
+    reached by some broadcast, its connection handlers ran, the client was sent CONNECT, entered in
+    its connection's tables ([visible_core]); and membership of its own room ([visible]) - which a
+    restored session has from its creation on, by design of connection state recovery. *)
+Definition visible_core (s : server) (x : sid) : Prop :=
+  In x (store s) \/ In x (conn_flag s)
   \/ (exists rooms ex, In x (targets (store s) (adp s) rooms ex))
   \/ (0 < handler_runs x (trace s))%nat
   \/ In (PktConnect x) (packets x (trace s))
   \/ (exists c, In (c, x) (c_socks s)).
 
-Definition passed_pc (p : pc) : bool :=
-  match p with PMw _ | PDisable _ | PLeave _ | PSendError _ | PRejected _ => false | _ => true end.
+Definition visible (s : server) (x : sid) : Prop :=
+  visible_core s x \/ In x (members (adp s) (ROwn x)).
 
-Lemma visible_passed : forall s t, consistent (adp s) -> tinv s t -> visible s (t_sid t) -> passed_pc (t_pc t) = true.
+Definition passed_pc (p : pc) : bool :=
+  match p with PNew | PMw _ | PDisable _ | PLeave _ | PSendError _ | PRejected _ => false | _ => true end.
+
+Lemma visible_core_passed : forall s t, tinv s t -> visible_core s (t_sid t) -> passed_pc (t_pc t) = true.
 Proof.
-  intros s t C [I1 I2 I3 I4 I5 I6 I7 I8 I9 I10 I11 I12] V.
+  intros s t [I1 I2 I3 I4 I5 I6 I7 I8 I9 I10 I11 I12] V.
   assert (in_store_pc (t_pc t) = true -> passed_pc (t_pc t) = true) as P1 by (destruct (t_pc t); simpl; auto).
-  destruct V as [V|[V|[V|[V|[V|[V|V]]]]]].
+  destruct V as [V|[V|[V|[V|[V|V]]]]].
   - apply P1, I1, V.
-  - apply C in V. destruct (I4 _ V) as [[_ O]|[n E]]; [|discriminate].
-    destruct (t_pc t); simpl in *; auto.
   - apply I2 in V. destruct (t_pc t); simpl in *; auto.
   - destruct V as (rooms & ex & V). apply targets_in_store in V. apply P1, I1, V.
   - rewrite I9 in V. destruct (t_h t) eqn:H; try lia.
@@ -436,24 +453,60 @@ Proof.
   - apply I3 in V. destruct (t_pc t); simpl in *; auto; discriminate.
 Qed.
 
+Lemma visible_passed : forall s t, consistent (adp s) -> tinv s t -> restored t = false ->
+  visible s (t_sid t) -> passed_pc (t_pc t) = true.
+Proof.
+  intros s t C T NR [V|V]; [eapply visible_core_passed; eauto|].
+  destruct T as [I1 I2 I3 I4 I5 I6 I7 I8 I9 I10 I11 I12].
+  apply C in V. destruct (I4 _ V) as [[_ O]|[n E]]; [|discriminate].
+  unfold own_in in O. rewrite NR in O. simpl in O. rewrite orb_false_r in O.
+  destruct (t_pc t); simpl in *; auto; discriminate.
+Qed.
+
 Lemma passed_all_accept : forall s t, tinv s t -> passed_pc (t_pc t) = true ->
-  mw_calls (t_sid t) (trace s) = seq 0 (length (t_chain t)) /\
-  Forall (fun b => accepts b = true) (t_chain t).
+  (skipped t = true /\ mw_calls (t_sid t) (trace s) = []) \/
+  (mw_calls (t_sid t) (trace s) = seq 0 (length (t_chain t)) /\
+   Forall (fun b => accepts b = true) (t_chain t)).
 Proof.
   intros s t [I1 I2 I3 I4 I5 I6 I7 I8 I9 I10 I11 I12] P.
   destruct (t_pc t); simpl in *; try discriminate;
-    destruct I7 as [A CALLS]; unfold acc_prefix in A; rewrite firstn_all in A; auto.
+    (destruct I7 as [SK|[A CALLS]]; [left; exact SK | right; unfold acc_prefix in A; rewrite firstn_all in A; auto]).
 Qed.
 
+Lemma skipped_restored : forall t, restored t = false -> skipped t = false.
+Proof. intros t H. unfold skipped. now rewrite H. Qed.
+
+(** A socket that is not a restored session: visible in any way (own room included) only after
+    every middleware ran once, in order, and accepted. *)
 Lemma connected_only_after_all_accept : forall ts0 sched s ts t,
   fresh ts0 -> run sched (init ts0) = (s, ts) -> In t ts ->
+  restored t = false ->
   visible s (t_sid t) ->
   mw_calls (t_sid t) (trace s) = seq 0 (length (t_chain t)) /\
   Forall (fun b => accepts b = true) (t_chain t).
 Proof.
+  intros ts0 sched s ts t FR RUN IN NR V.
+  destruct (reachable_inv ts0 sched s ts t FR RUN IN) as [C T].
+  assert (passed_pc (t_pc t) = true) as P by (eapply visible_passed; eauto).
+  destruct (passed_all_accept s t T P) as [[SK _]|R]; auto.
+  rewrite (skipped_restored t NR) in SK. discriminate.
+Qed.
+
+(** Any socket: connected only after every middleware accepted - unless it is a session the
+    adapter really restored and UseMiddlewares is off (then, and only then, no middleware runs). *)
+Lemma connected_only_after_all_accept_or_restored : forall ts0 sched s ts t,
+  fresh ts0 -> run sched (init ts0) = (s, ts) -> In t ts ->
+  visible_core s (t_sid t) ->
+  (restored t = true /\ t_usemw t = false /\ mw_calls (t_sid t) (trace s) = []) \/
+  (mw_calls (t_sid t) (trace s) = seq 0 (length (t_chain t)) /\
+   Forall (fun b => accepts b = true) (t_chain t)).
+Proof.
   intros ts0 sched s ts t FR RUN IN V.
   destruct (reachable_inv ts0 sched s ts t FR RUN IN) as [C T].
-  apply passed_all_accept; auto. eapply visible_passed; eauto.
+  assert (passed_pc (t_pc t) = true) as P by (eapply visible_core_passed; eauto).
+  destruct (passed_all_accept s t T P) as [[SK CALLS]|R]; auto.
+  left. unfold skipped in SK. apply andb_true_iff in SK as [R U].
+  repeat split; auto. now apply negb_true_iff in U.
 Qed.
 
 (** first rejection *)
@@ -492,7 +545,12 @@ Proof.
   assert (acc_prefix (t_chain t) (length (t_chain t)) -> False) as P.
   { intros A'. assert (j < length (t_chain t))%nat as L by (apply nth_error_Some; congruence).
     pose proof (acc_prefix_nth _ _ _ _ A' N L). congruence. }
-  destruct (t_pc t); simpl in I7; eauto; try (destruct I7 as [A' _]; destruct (P A')).
+  assert (forall sk, ((sk = true /\ mw_calls (t_sid t) (trace s) = []) \/
+                      (acc_prefix (t_chain t) (length (t_chain t)) /\
+                       mw_calls (t_sid t) (trace s) = seq 0 (length (t_chain t)))) ->
+          exists n, (n <= S j)%nat /\ mw_calls (t_sid t) (trace s) = seq 0 n) as Q.
+  { intros sk [[_ E]|[A' _]]; [exists 0%nat; split; [lia|exact E] | destruct (P A')]. }
+  destruct (t_pc t); simpl in I7; eauto; try (exists 0%nat; split; [lia|exact I7]; fail).
   destruct I7 as (L & A' & CALLS). exists i. split; auto.
   destruct (le_lt_dec i j); [lia|]. pose proof (acc_prefix_nth _ _ _ _ A' N l). congruence.
 Qed.
@@ -559,19 +617,23 @@ Proof.
     apply I10 in X. congruence.
 Qed.
 
-(** While the chain is running the socket is not visible in any way. *)
+(** While the chain is running the socket is not visible in any way (a restored session is in the
+    rooms of its previous life, own room included, and nothing else). *)
 Lemma invisible_during_chain : forall ts0 sched s ts t i,
   fresh ts0 -> run sched (init ts0) = (s, ts) -> In t ts ->
-  t_pc t = PMw i -> ~ visible s (t_sid t).
+  t_pc t = PMw i ->
+  ~ visible_core s (t_sid t) /\ (restored t = false -> ~ visible s (t_sid t)).
 Proof.
-  intros ts0 sched s ts t i FR RUN IN PC V.
-  destruct (reachable_inv ts0 sched s ts t FR RUN IN) as [C T].
-  pose proof (visible_passed s t C T V) as P. rewrite PC in P. discriminate.
+  intros ts0 sched s ts t i FR RUN IN PC.
+  destruct (reachable_inv ts0 sched s ts t FR RUN IN) as [C T]. split.
+  - intros V. pose proof (visible_core_passed s t T V) as P. rewrite PC in P. discriminate.
+  - intros NR V. pose proof (visible_passed s t C T NR V) as P. rewrite PC in P. discriminate.
 Qed.
 
 (** * Progress: an admission scheduled alone terminates, admitted or rejected *)
 Definition mu (t : adm) : nat :=
   match t_pc t with
+  | PNew => length (t_chain t) + 9
   | PMw i => (length (t_chain t) - i) + 8
   | PDisable _ => 3 | PLeave _ => 2 | PSendError _ => 1 | PRejected _ => 0
   | PStore => 6 | PConnTables => 5 | PJoinOwn => 4 | PSendConnect => 3 | PSetConnected => 2
@@ -592,11 +654,12 @@ Lemma step_main_mu : forall t s, held t = false ->
   held (fst (step_main t s)) = false /\
   ((mu (fst (step_main t s)) < mu t)%nat \/ (mu t = 0%nat /\ fst (step_main t s) = t)).
 Proof.
-  intros [sd cn ch p h je js] s HD. unfold step_main, mu, held in *; simpl in *. rewrite HD.
+  intros [sd cn ch p h je js rc um] s HD. unfold step_main, mu, held in *; simpl in *. rewrite HD.
   destruct p; simpl; rewrite ?HD; simpl; auto; try (split; [auto|left; lia]).
-  destruct (nth_error ch i) as [b|] eqn:N; simpl; [|split; [auto|left; lia]].
-  assert (i < length ch)%nat by (apply nth_error_Some; congruence).
-  destruct (mb_verdict b); simpl; rewrite existsb_hold_app_new; (split; [auto|left; lia]).
+  - destruct rc; destruct um; simpl; (split; [auto|left; lia]).
+  - destruct (nth_error ch i) as [b|] eqn:N; simpl; [|split; [auto|left; lia]].
+    assert (i < length ch)%nat by (apply nth_error_Some; congruence).
+    destruct (mb_verdict b); simpl; rewrite existsb_hold_app_new; (split; [auto|left; lia]).
 Qed.
 
 Lemma nth_upd_nth : forall {A} n (x : A) l y, nth_error l n = Some y -> nth_error (upd_nth n x l) n = Some x.
@@ -627,12 +690,12 @@ Lemma mu_zero_terminal : forall t, mu t = 0%nat -> t_pc t = PAdmitted \/ exists 
 Proof. intros [sd cn ch p h]. unfold mu; simpl. destruct p; simpl; intros; try lia; eauto. Qed.
 
 Lemma admission_completes : forall n s ts t, nth_error ts n = Some t -> held t = false ->
-  exists t', nth_error (snd (run (repeat (n, WMain) (length (t_chain t) + 8)) (s, ts))) n = Some t' /\
+  exists t', nth_error (snd (run (repeat (n, WMain) (length (t_chain t) + 9)) (s, ts))) n = Some t' /\
              (t_pc t' = PAdmitted \/ exists r, t_pc t' = PRejected r).
 Proof.
   intros n s ts t N HD.
-  assert (mu t <= length (t_chain t) + 8)%nat as M.
-  { destruct t as [sd cn ch p h je js]; unfold mu; simpl. destruct p; simpl; lia. }
+  assert (mu t <= length (t_chain t) + 9)%nat as M.
+  { destruct t as [sd cn ch p h je js rc um]; unfold mu; simpl. destruct p; simpl; lia. }
   destruct (run_alone_mu _ n s ts t N HD M) as (t' & N' & Z).
   exists t'. split; auto. now apply mu_zero_terminal.
 Qed.
@@ -642,7 +705,7 @@ Qed.
 Lemma join_releases : forall j t s rs, nth_error (t_js t) j = Some (rs, JHold) ->
   nth_error (t_js (fst (step_join j t s))) j = Some (rs, JDone).
 Proof.
-  intros j [sd cn ch p h je js] s rs H. unfold step_join; simpl in *. rewrite H. simpl.
+  intros j [sd cn ch p h je js rc um] s rs H. unfold step_join; simpl in *. rewrite H. simpl.
   eapply nth_upd_nth; eauto.
 Qed.
 
@@ -651,8 +714,9 @@ Qed.
     rejected = the chain stopped at the first rejection, CONNECT_ERROR carries it, nothing remains. *)
 Lemma admitted_state : forall ts0 sched s ts t,
   fresh ts0 -> run sched (init ts0) = (s, ts) -> In t ts -> t_pc t = PAdmitted ->
-  Forall (fun b => accepts b = true) (t_chain t) /\
-  mw_calls (t_sid t) (trace s) = seq 0 (length (t_chain t)) /\
+  ((restored t = true /\ t_usemw t = false /\ mw_calls (t_sid t) (trace s) = []) \/
+   (Forall (fun b => accepts b = true) (t_chain t) /\
+    mw_calls (t_sid t) (trace s) = seq 0 (length (t_chain t)))) /\
   packets (t_sid t) (trace s) = [PktConnect (t_sid t)] /\
   In (t_sid t) (store s) /\ In (t_sid t) (conn_flag s) /\
   In (t_sid t) (members (adp s) (ROwn (t_sid t))) /\
@@ -661,9 +725,11 @@ Proof.
   intros ts0 sched s ts t FR RUN IN PC.
   destruct (reachable_inv ts0 sched s ts t FR RUN IN) as [C T].
   assert (passed_pc (t_pc t) = true) as P by (rewrite PC; reflexivity).
-  destruct (passed_all_accept s t T P) as [CALLS ACC].
+  pose proof (passed_all_accept s t T P) as PA.
   destruct T as [I1 I2 I3 I4 I5 I6 I7 I8 I9 I10 I11 I12]. rewrite PC in *. simpl in *.
-  repeat split; auto.
+  split; [|repeat split; auto].
+  - destruct PA as [[SK CALLS]|[CALLS ACC]]; [left|right; auto].
+    unfold skipped in SK. apply andb_true_iff in SK as [R U]. apply negb_true_iff in U. auto.
   - apply I1; auto.
   - apply I2; auto.
   - apply C. apply I5; auto.
@@ -693,6 +759,7 @@ Proof. intros c j b F N. rewrite Forall_forall in F. apply F. eapply nth_error_I
 
 Lemma chain_function_agrees : forall ts0 sched s ts t,
   fresh ts0 -> run sched (init ts0) = (s, ts) -> In t ts ->
+  skipped t = false ->
   t_pc t = PAdmitted \/ (exists r, t_pc t = PRejected r) ->
   mw_calls (t_sid t) (trace s) = fst (run_chain (t_chain t)) /\
   match snd (run_chain (t_chain t)) with
@@ -700,11 +767,12 @@ Lemma chain_function_agrees : forall ts0 sched s ts t,
   | Some r => t_pc t = PRejected r
   end.
 Proof.
-  intros ts0 sched s ts t FR RUN IN TERM.
+  intros ts0 sched s ts t FR RUN IN NSK TERM.
   destruct (run_chain_from_calls (t_chain t) 0) as (n & CALLS & LE & ACCP & OUT).
   fold (run_chain (t_chain t)) in *.
   destruct TERM as [PC|[r PC]].
-  - destruct (admitted_state ts0 sched s ts t FR RUN IN PC) as (ACC & MC & _).
+  - destruct (admitted_state ts0 sched s ts t FR RUN IN PC) as ([(R & U & _)|(ACC & MC)] & _).
+    { unfold skipped in NSK. rewrite R, U in NSK. discriminate. }
     destruct (snd (run_chain (t_chain t))) as [r'|].
     + destruct OUT as (b & N & V & _). pose proof (Forall_accepts_nth _ _ _ ACC N) as A.
       unfold accepts in A. rewrite V in A. discriminate.
